@@ -5,11 +5,13 @@
 package main
 
 import (
+	"bytes"
 	"crypto/tls"
 	"encoding/json"
 	"fmt"
 	"net"
 	"net/http"
+	"net/http/httptest"
 	"net/netip"
 	"net/url"
 	"strings"
@@ -33,6 +35,11 @@ type config struct {
 	Allowed    []string `json:"allowed"`
 	Disallowed []string `json:"disallowed"`
 	Hosts      []string `json:"blocked_hosts"`
+	// Via: "" = the lists are the start-up configuration; "api" = the server
+	// starts with empty lists and they are set by POST /control/access/set;
+	// "api+reconfigure" = the same, followed by Server.Reconfigure (what every
+	// settings change that restarts the DNS server runs).
+	Via string `json:"set_via,omitempty"`
 }
 
 type request struct {
@@ -198,7 +205,9 @@ func (e *env) runConfig(cf *config, reqs []request) {
 		Mode: filtering.BlockingModeDefault, ProtectionEnabled: true, FilteringEnabled: true, BlockedTTL: 10,
 		QueryLog: ql, Stats: st,
 		Conf: func(sc *dnsforward.ServerConfig) {
-			sc.AllowedClients, sc.DisallowedClients, sc.BlockedHosts = cf.Allowed, cf.Disallowed, cf.Hosts
+			if cf.Via == "" {
+				sc.AllowedClients, sc.DisallowedClients, sc.BlockedHosts = cf.Allowed, cf.Disallowed, cf.Hosts
+			}
 			sc.TLSConf = &dnsforward.TLSConfig{ServerName: serverName}
 		},
 	})
@@ -208,6 +217,32 @@ func (e *env) runConfig(cf *config, reqs []request) {
 	}
 	defer a.Close()
 	c.Count("configs", 1)
+	if cf.Via != "" {
+		nn := func(l []string) []string {
+			if l == nil {
+				return []string{}
+			}
+			return l
+		}
+		body, _ := json.Marshal(map[string]any{"allowed_clients": nn(cf.Allowed), "disallowed_clients": nn(cf.Disallowed), "blocked_hosts": nn(cf.Hosts)})
+		w := httptest.NewRecorder()
+		a.Server.VerifAccessSet(w, httptest.NewRequest(http.MethodPost, "/control/access/set", bytes.NewReader(body)))
+		if w.Code != http.StatusOK {
+			if len(cf.Allowed)+len(cf.Disallowed)+len(cf.Hosts) == 0 {
+				return // the API refuses to set nothing at all; not a case
+			}
+			c.Violation("access-set-refused", fmt.Sprintf("POST /control/access/set refused valid lists: HTTP %d %s (%s)", w.Code, w.Body.String(), jsonStr(cf)), caseC{Conf: *cf})
+			return
+		}
+		if cf.Via == "api+reconfigure" {
+			if err = a.Server.Reconfigure(nil); err != nil {
+				c.EngineError("reconfigure: " + err.Error())
+				return
+			}
+			a.Server.VerifSetUpstream(a.Upstream)
+		}
+		c.Count("configs_set_through_the_api", 1)
+	}
 	for i, rq := range reqs {
 		c.Count("evals", 1)
 		plain := rq.Proto == "udp" || rq.Proto == "tcp" || rq.Proto == "dnscrypt"
@@ -369,6 +404,14 @@ func run(c *lib.Ctx) {
 			}
 			cf := config{Allowed: al, Disallowed: dl}
 			e.runConfig(&cf, reqs)
+			for _, via := range []string{"api", "api+reconfigure"} {
+				if len(al)+len(dl) == 0 || (c.Quick() && via == "api") {
+					continue
+				}
+				cv := cf
+				cv.Via = via
+				e.runConfig(&cv, reqs)
+			}
 			if idx%701 == 0 {
 				c.Sample(map[string]any{"config": cf, "requests": len(reqs), "first": reqs[0]})
 			}
@@ -386,6 +429,7 @@ func run(c *lib.Ctx) {
 			}
 			cf := cl
 			cf.Hosts = hs
+			cf.Via = []string{"", "api", "api+reconfigure"}[idx%3]
 			var rq []request
 			for _, p := range protos {
 				for _, n := range namesB {
